@@ -623,6 +623,24 @@ def embed_worker(libpath):
         sys.stdout.flush()
 
 
+def worker_results(lib, inputs):
+    """one result per input: the parsed JSON answer of the embed worker, or ("CRASH", exit status) when the library took the
+    worker process down on that input (the worker is restarted for the remaining ones)"""
+    import subprocess
+    res, k = [], 0
+    while k < len(inputs):
+        pr = subprocess.run([sys.executable, os.path.abspath(__file__), "--embed-worker", lib],
+                            input="".join(json.dumps(x) + "\n" for x in inputs[k:]).encode(), stdout=subprocess.PIPE, stderr=subprocess.PIPE, timeout=1800)
+        outs = [l for l in pr.stdout.decode("latin-1").split("\n") if l.startswith("{")]
+        for l in outs[:len(inputs) - k]:
+            res.append(json.loads(l))
+        k += len(outs)
+        if k < len(inputs):
+            res.append(("CRASH", pr.returncode, pr.stderr.decode("latin-1")[-300:]))
+            k += 1
+    return res
+
+
 def api_obs(rc, status, msgs, skip_file=None):
     """sqfvm_call's answer in the observation format of the oracle: -6 = failed (Appendix B), 0 = ok; instance ready again"""
     res, stt = ("2", "3") if (rc, status) == (-6, 0) else ("-1", "0") if (rc, status) == (0, 0) else (str(rc), str(status + 10))
@@ -681,9 +699,13 @@ def main(replay=None):
     gen = Gen(rng)
 
     hists = []
+    replay_embedder = None
     if replay:
         r = json.load(open(replay))["replay"]
-        hists.append({"cfg": tuple(r["case"]["cfg"]), "runs": [(m, ev) for m, ev in r["case"]["runs"]], "origin": "replay"})
+        if r.get("origin") in ("sqfvm_call", "eval", "cli"):
+            replay_embedder = (r["origin"], r["case"])
+        else:
+            hists.append({"cfg": tuple(r["case"]["cfg"]), "runs": [(m, ev) for m, ev in r["case"]["runs"]], "origin": "replay"})
     else:
         cdir = os.path.join(V.VERIF, "corpus", PID)
         if os.path.isdir(cdir):
@@ -826,9 +848,14 @@ def main(replay=None):
     # ---- the embedders themselves: sqfvm_call on one instance (src/export/sqfvm.cpp) and the CLI (src/cli/cli.cpp)
     n_api = n_cli = 0
     cli_exit_codes = {}
+    api_h, eval_cases, cli_cases = [], [], []
+    if replay_embedder:
+        o, case = replay_embedder
+        evs = [ev for m, ev in case["runs"]]
+        if o == "sqfvm_call": api_h.append((case["cfg"][0] / 1000.0, evs))
+        elif o == "eval": eval_cases += evs
+        else: cli_cases += evs
     if not replay:
-        bdir = V.build_impl("plain")
-        api_h = []
         for i in range(400 if thorough else 60):
             n = rng.randint(1, 4)
             evs = [clean_run(gen) if rng.random() < 0.4 else mk_case(gen, "one-fault", depth=2, nfault=rng.choice([1, 2]), where=rng.choice([None, "last"])) for _ in range(n)]
@@ -837,28 +864,6 @@ def main(replay=None):
             evs = [clean_run(gen), loop_run(gen, True), mk_case(gen, "one-fault", depth=2, nfault=1), clean_run(gen)]
             rng.shuffle(evs)
             api_h.append((0.05, evs))
-        inp = "".join(json.dumps({"max_s": ms, "codes": [ev["text"] for ev in evs]}) + "\n" for ms, evs in api_h)
-        import subprocess
-        pr = subprocess.run([sys.executable, os.path.abspath(__file__), "--embed-worker", os.path.join(bdir, "libsqfvm.so")],
-                            input=inp.encode(), stdout=subprocess.PIPE, stderr=subprocess.PIPE, timeout=1200)
-        outs = pr.stdout.decode("latin-1").split("\n")
-        for k, (ms, evs) in enumerate(api_h):
-            h = {"cfg": (int(ms * 1000), -1, 10000), "runs": [("a", ev) for ev in evs], "origin": "sqfvm_call"}
-            dist["sqfvm_call"] = dist.get("sqfvm_call", 0) + 1
-            if k >= len(outs) or not outs[k].startswith("{"):
-                viol("libsqfvm.so did not survive this sequence of sqfvm_call (worker exit %s)" % pr.returncode, h,
-                     {"texts": [ev["text"] for ev in evs], "stderr": pr.stderr.decode("latin-1")[-400:]})
-                break
-            for j, (ev, (rc, status, msgs)) in enumerate(zip(evs, json.loads(outs[k])["runs"])):
-                n_api += 1
-                obs, locs = api_obs(rc, status, msgs)
-                bad = oracle(ev, obs, locs or None)
-                if bad:
-                    viol("sqfvm_call %d of %d on one instance: %s" % (j + 1, len(evs), bad[0]), h,
-                         {"run": j, "complaints": bad, "impl": obs, "sqfvm_call": rc, "sqfvm_status": status, "text": ev["text"]})
-                    break
-        # __EVAL(..) / the interactive `eval`: runtime::evaluate_expression runs the expression on a context of its own
-        eval_cases = []
         for kind in ("count", "findif", "select"):      # fixed witnesses first: __EVAL({5} count [1,2]) used to end the host process
             prog = Program(Seq([Mark(gen), Fault(gen, kind), Mark(gen)], "main"))
             ev = evaluate(prog)
@@ -869,19 +874,39 @@ def main(replay=None):
             ev = evaluate(prog)
             ev["kind"], ev["faults"] = "eval", kinds
             eval_cases.append(ev)
-        inp = "".join(json.dumps({"max_s": 0.0, "codes": ["diag_log 900000; __EVAL(call { %s; 77 })" % ev["text"], "diag_log 900001"]}) + "\n" for ev in eval_cases)
-        pr = subprocess.run([sys.executable, os.path.abspath(__file__), "--embed-worker", os.path.join(bdir, "libsqfvm.so")],
-                            input=inp.encode(), stdout=subprocess.PIPE, stderr=subprocess.PIPE, timeout=1200)
-        outs = pr.stdout.decode("latin-1").split("\n")
+        for i in range(100 if thorough else 16):
+            cli_cases.append(clean_run(gen) if i % 4 == 0 else mk_case(gen, "one-fault", depth=2, nfault=rng.choice([1, 2]), where=rng.choice([None, "last"])))
+    if api_h or eval_cases or cli_cases:
+        bdir = V.build_impl("plain")
+        outs = worker_results(os.path.join(bdir, "libsqfvm.so"), [{"max_s": ms, "codes": [ev["text"] for ev in evs]} for ms, evs in api_h])
+        for k, (ms, evs) in enumerate(api_h):
+            h = {"cfg": (int(ms * 1000), -1, 10000), "runs": [("a", ev) for ev in evs], "origin": "sqfvm_call"}
+            dist["sqfvm_call"] = dist.get("sqfvm_call", 0) + 1
+            if isinstance(outs[k], tuple):
+                viol("libsqfvm.so did not survive this sequence of sqfvm_call (worker exit %s)" % outs[k][1], h,
+                     {"texts": [ev["text"] for ev in evs], "stderr": outs[k][2]})
+                continue
+            for j, (ev, (rc, status, msgs)) in enumerate(zip(evs, outs[k]["runs"])):
+                n_api += 1
+                obs, locs = api_obs(rc, status, msgs)
+                bad = oracle(ev, obs, locs or None)
+                if bad:
+                    viol("sqfvm_call %d of %d on one instance: %s" % (j + 1, len(evs), bad[0]), h,
+                         {"run": j, "complaints": bad, "impl": obs, "sqfvm_call": rc, "sqfvm_status": status, "text": ev["text"]})
+                    break
+        # __EVAL(..) / the interactive `eval`: runtime::evaluate_expression runs the expression on a context of its own
+        outs = worker_results(os.path.join(bdir, "libsqfvm.so"),
+                              [{"max_s": 0.0, "codes": ["diag_log 900000; __EVAL(call { %s; 77 })" % ev["text"], "diag_log 900001"]} for ev in eval_cases])
         n_eval = 0
         for k, ev in enumerate(eval_cases):
             h = {"cfg": (0, -1, 10000), "runs": [("a", ev)], "origin": "eval"}
             dist["eval"] = dist.get("eval", 0) + 1
-            if k >= len(outs) or not outs[k].startswith("{"):
-                viol("libsqfvm.so did not survive __EVAL of this expression (worker exit %s)" % pr.returncode, h, {"texts": [ev["text"]]})
-                break
-            (rc, status, msgs), (rc2, status2, msgs2) = json.loads(outs[k])["runs"]
             n_eval += 1
+            if isinstance(outs[k], tuple):
+                viol("the host process of libsqfvm.so did not survive __EVAL of this expression followed by one more sqfvm_call (worker exit %s)" % outs[k][1], h,
+                     {"texts": ["diag_log 900000; __EVAL(call { %s; 77 })" % ev["text"], "diag_log 900001"], "stderr": outs[k][2]})
+                continue
+            (rc, status, msgs), (rc2, status2, msgs2) = outs[k]["runs"]
             failing = any(sc["outcome"] == "err" for sc in ev["scripts"])
             obs, locs = api_obs(-6 if failing else 0, 0, msgs, "dllexports")   # evaluate_expression has no result code of its own to judge
             shifted = dict(ev)
@@ -904,8 +929,7 @@ def main(replay=None):
                           "attributable_to": key if cut is not None and not oracle(shifted, cut, locs or None) else None})
         evaluations += n_eval
         exe = os.path.join(bdir, "sqfvm")
-        for i in range(100 if thorough else 16):
-            ev = clean_run(gen) if i % 4 == 0 else mk_case(gen, "one-fault", depth=2, nfault=rng.choice([1, 2]), where=rng.choice([None, "last"]))
+        for ev in cli_cases:
             obs, locs, rc = cli_obs(exe, ev["text"])
             n_cli += 1
             dist["cli"] = dist.get("cli", 0) + 1
